@@ -138,24 +138,41 @@ class RecOutput(i_lib.Output):
 # runtime with a scripted decision stream (E3)
 
 class Decisions:
-    """The stream consumed by the extra built-in `choose`."""
+    """The stream consumed by the extra built-in `choose`.
+
+    Two forms: a list (values handed out in order of evaluation, then
+    `default`), or a dict {'sites': {k: [v, ...]}, 'default': v} in which the
+    n-th evaluation of the site `[choose k]` gets the n-th value of its list
+    (the last one repeated; `default` for unlisted sites)."""
     def __init__(self):
-        self.stream = []
-        self.pos = 0
-        self.default = 0
+        self.load([])
 
     def load(self, stream, default=0):
-        self.stream = list(stream)
-        self.pos = 0
+        self.sites = None
         self.default = default
+        self.pos = 0
+        self.count = {}
+        if isinstance(stream, dict):
+            self.sites = {int(k): list(v) for k, v in stream['sites'].items()}
+            self.default = stream.get('default', 0)
+            self.stream = []
+        else:
+            self.stream = list(stream or [])
 
     def next(self, k):
-        if self.pos < len(self.stream):
-            v = self.stream[self.pos]
-        else:
-            v = self.default
         self.pos += 1
-        return v
+        if self.sites is not None:
+            n = self.count.get(k, 0)
+            self.count[k] = n + 1
+            if n >= 5:
+                return 0           # every site eventually says no (termination)
+            vals = self.sites.get(k)
+            if not vals:
+                return self.default
+            return vals[n] if n < len(vals) else vals[-1]
+        if self.pos <= len(self.stream):
+            return self.stream[self.pos - 1]
+        return self.default
 
 
 DECISIONS = Decisions()
